@@ -521,10 +521,17 @@ pub fn run_c04(ctx: &Ctx) -> ! {
     let mut fault_runs = 0u64;
     if std::env::var("VH_NO_IOFAULT").is_err() {
         let errnos: &[i32] = if thorough { &[28, 5, 27] } else { &[28] };
-        let jobs: Vec<(&'static str, i32)> = ["local", "pull", "push"].iter().flat_map(|d| errnos.iter().map(move |e| (*d, *e))).collect();
+        // second pass: read-side calls (stat, opendir, open for reading, read) fail too (EACCES / EIO)
+        let mut jobs: Vec<(&'static str, i32, bool)> = ["local", "pull", "push"].iter().flat_map(|d| errnos.iter().map(move |e| (*d, *e, false))).collect();
+        for d in ["local", "pull", "push"] {
+            jobs.push((d, 13, true));
+            if thorough {
+                jobs.push((d, 5, true));
+            }
+        }
         let res: Vec<(u64, Vec<Violation>)> = jobs
             .par_iter()
-            .map(|&(dir, errno)| {
+            .map(|&(dir, errno, reads)| {
                 let c = Cfg { dir, delete: true, exclude: "", jobs: 1, verbose: false, template: "T9" };
                 let mut runs = 0u64;
                 let mut vs = Vec::new();
@@ -533,7 +540,7 @@ pub fn run_c04(ctx: &Ctx) -> ! {
                 let logp = p0.env.sc.path("shim.log");
                 let roots = format!("{}:{}", p0.env.src().display(), p0.env.dst().display());
                 let base_env = |mode: &str, k: Option<u64>, logp: &Path| {
-                    let mut e = vec![("LD_PRELOAD".to_string(), crate::e3::SHIM.to_string()), ("VSHIM_MODE".to_string(), mode.to_string()), ("VSHIM_ROOT".to_string(), roots.clone()), ("VSHIM_LOG".to_string(), logp.to_string_lossy().into_owned()), ("TOKIO_WORKER_THREADS".to_string(), "1".to_string())];
+                    let mut e = vec![("LD_PRELOAD".to_string(), crate::e3::SHIM.to_string()), ("VSHIM_MODE".to_string(), mode.to_string()), ("VSHIM_ROOT".to_string(), roots.clone()), ("VSHIM_LOG".to_string(), logp.to_string_lossy().into_owned()), ("TOKIO_WORKER_THREADS".to_string(), "1".to_string()), ("VSHIM_COUNT_READS".to_string(), if reads { "1" } else { "0" }.to_string())];
                     if let Some(k) = k {
                         e.push(("VSHIM_FAIL_AT".to_string(), k.to_string()));
                         e.push(("VSHIM_FAIL_ERRNO".to_string(), errno.to_string()));
@@ -571,7 +578,7 @@ pub fn run_c04(ctx: &Ctx) -> ! {
                     let failed_call = std::fs::read_to_string(&logk).ok().and_then(|t| t.lines().find(|l| l.ends_with("FAILED")).map(|l| l.split('\t').skip(2).take(2).collect::<Vec<_>>().join(" ")));
                     let Some(failed_call) = failed_call else { continue }; // fewer calls on this path: nothing was injected
                     if let Some((kind, m, path)) = c04_oracle(&c, &p, &out) {
-                        vs.push(Violation::new(&kind, format!("[{} with libc call #{k} ({}) failing with errno {errno}] exit {:?}: {m}; stderr tail: {}", cfg_name(&c), failed_call.rsplit('/').next().unwrap_or(""), out.code, out.stderr.lines().last().unwrap_or("")), json!({"config": cfg_name(&c), "path": path, "io_fault": {"k": k, "errno": errno}})).with("direction", json!(dir)).with("fault", json!("io_error")));
+                        vs.push(Violation::new(&kind, format!("[{} with libc call #{k}{} ({}) failing with errno {errno}] exit {:?}: {m}; stderr tail: {}", cfg_name(&c), if reads { " (reads counted)" } else { "" }, failed_call.rsplit('/').next().unwrap_or(""), out.code, out.stderr.lines().last().unwrap_or("")), json!({"config": cfg_name(&c), "path": path, "io_fault": {"k": k, "errno": errno, "reads": reads}})).with("direction", json!(dir)).with("fault", json!("io_error")));
                         if vs.len() >= 2 {
                             break;
                         }
